@@ -657,6 +657,11 @@ def judge(chk, cases, impl, model, with_oracle=True):
                                  deliveries=sum(len(step['delivered']) for step in obs),
                                  ignored_as_seen=sum(1 for step in obs if step['code'] == 0)))
             chk.count('long_history_fragments', len(case['hist']))
+            if not any(isinstance(item, dict) and item.get('kind') == 'long' for item in chk.samples):
+                chk.samples[-1] = dict(kind='long', long_spec=case['long_spec'], bundles=len(case['bundles']),
+                                       fragments_received=len(case['hist']),
+                                       deliveries=sum(len(step['delivered']) for step in obs),
+                                       ignored_as_seen=sum(1 for step in obs if step['code'] == 0))
         else:
             chk.case(ident=json.dumps(case, sort_keys=True), nontrivial=nontrivial(case),
                  sample=dict(kind=case['kind'], bundles=case['bundles'],
